@@ -6,7 +6,7 @@ META = dict(
     text="A real ControllerPid is created by Act.resolve from the Doer registry inside a resolved House/Framer/Frame for every configuration of wrap in {0, 180}, "
          "integrator limits {[-5,5], [0,0], [1,2]}, output limits {[-20,20], [0,0], [5,10], [-inf,inf]}, gain vectors over {0, 1, -3} plus inf and nan gains, and both "
          "rate modes. From the primed controller every sequence of up to 3 updates (2 for the rate-sensor mode in quick) with input and set point in "
-         "{0, 1, -1, 0.005, 200, -200, inf, -inf, nan}, lapse in {0, 0.125, 1} (and sensed rate in {-1, 0.05, inf, nan}) is executed, sequences being merged when "
+         "{0, 1, -1, 0.005, 200, -200, inf, -inf, nan}, lapse in {0, 0.125, 1} (inf too in thorough) and sensed rate in {-1, 0.05, inf, nan} is executed, sequences being merged when "
          "they reach the same (prior set point, prior error, error sum). After every evaluated update: ovmin <= output <= ovmax and esmin <= error sum <= esmax "
          "(a NaN fails), the stored error is the shortest representative of input - set point modulo 2*wrap, the prior set point follows the threshold rule, "
          "and after a set point change above the threshold the new error sum equals the one obtained from the same update with the integrator forced to zero.",
@@ -141,10 +141,12 @@ def canon(s, evaluated):
 
 
 def events(calc, tier):
-    lapses = (0.125, 1.0) if tier == "quick" else (0.125, 1.0, INF)
-    rates = (0.0,) if calc else ((-1.0, 0.05, INF, NAN) if tier == "quick" else (0.0, -1.0, 0.05, INF, NAN))
-    if calc and tier != "quick":
-        rates = (0.0, NAN)
+    if calc:        # the sensed rate is not read in this mode
+        lapses = (0.125, 1.0) if tier == "quick" else (0.125, 1.0, INF)
+        rates = (0.0,)
+    else:
+        lapses = (0.125, 1.0)
+        rates = (-1.0, 0.05, INF, NAN) if tier == "quick" else (0.0, -1.0, 0.05, INF, NAN)
     evs = [(0.0, 0.0, 0.0, 0.0)]     # zero lapse: the controller holds; its inputs are not even read
     for lapse in lapses:
         for rate in rates:
@@ -164,6 +166,12 @@ def show(cfg, hist):
 
 
 def work(job):
+    p = _work(job)
+    tag_job(p, job)
+    return p
+
+
+def _work(job):
     core.use_repo()
     cfg, depth, tier = job
     wrap, calc, ger, (esmin, esmax), gains, (ovmin, ovmax) = cfg
@@ -311,7 +319,7 @@ def configs(tier):
                     out.append(((wrap, True, 1.0, es, g, ov), 3))
     # rate from the rate sensor (calcRate False): er = ger * rate
     gers = (-3.0,) if not full else (1.0, -3.0)
-    ovs = (OVLIMS[0], OVLIMS[2]) if not full else OVLIMS
+    ovs = (OVLIMS[0], OVLIMS[2])
     for g in gain_vectors(False):
         for ov in ovs:
             for es in ESLIMS:
@@ -321,7 +329,37 @@ def configs(tier):
     return out
 
 
+def tag_job(p, job, start=0):
+    """Put the shard identity into the replay record of every violation found from index `start` on."""
+    for v in p.violations[start:]:
+        if isinstance(v[3], dict):
+            v[3].setdefault("job", repr(job))
+
+
+def replay(path, runner, pid):
+    """./vcheck C46 --replay <file>: re-run the shard that produced the stored violation; exit 1 if the same key fails again."""
+    import json
+    rec = json.load(open(path))
+    if not isinstance(rec.get("replay"), dict) or "job" not in rec["replay"]:
+        print("replay record carries no shard identity; run the check again to regenerate it")
+        return 2
+    job = eval(rec["replay"]["job"], {"__builtins__": {}, "inf": float("inf"), "nan": float("nan")})
+    p = runner(job)
+    hit = False
+    for g, ex, what, rep in p.violations:
+        same = "%s|%s" % (g, ex) == rec["key"]
+        hit = hit or same
+        print("%s %s|%s\n  %s" % ("REPRODUCED" if same else "other violation in the same shard:", g, ex, what))
+    if not hit:
+        print("not reproduced: %s" % rec["key"])
+    print("REPLAY property=%s reproduced=%s shard_evaluations=%d" % (pid, hit, p.evaluations))
+    return 1 if hit else 0
+
+
 def run():
+    import os
+    if os.environ.get("VERIF_REPLAY"):
+        return replay(os.environ["VERIF_REPLAY"], work, "C46")
     ck = core.Check("C46", "exploration", META["technique"])
     # reference self-check
     if shortest_ok(-160.0, 200.0, 180.0) is not True or shortest_ok(200.0, 200.0, 180.0) is not False or shortest_ok(20.0, 200.0, 180.0) is not False \
@@ -344,10 +382,11 @@ def run():
     ]
     return ck.finish(
         rule="configurations = wrap {0,180} x error-sum limits %r x output limits x gain vectors (gff,gpe,gde,gie) x rate mode; calcRate True: %d gain vectors x 4 output limits, "
-             "sequences of <= 3 updates; calcRate False: 10 gain vectors x %d output limits x ger %s, sequences of <= %d updates. update = input x set point over %r "
-             "x lapse %s x sensed rate, plus a zero-lapse update. evaluations = real controller updates judged; states = distinct fed-back states summed over configurations."
-             % (ESLIMS, len(gain_vectors(core.TIER != "quick")), 2 if core.TIER == "quick" else 4, "{-3}" if core.TIER == "quick" else "{1,-3}",
-                2 if core.TIER == "quick" else 3, VALUES, "{0.125, 1}" if core.TIER == "quick" else "{0.125, 1, inf}"),
+             "sequences of <= 3 updates, lapse %s; calcRate False: 10 gain vectors x 2 output limits x ger %s, sequences of <= %d updates, lapse {0.125, 1} x sensed rate %s. "
+             "update = input x set point over %r x lapse (x rate), plus a zero-lapse update. evaluations = real controller updates judged; states = distinct fed-back states summed over configurations."
+             % (ESLIMS, len(gain_vectors(core.TIER != "quick")), "{0.125, 1}" if core.TIER == "quick" else "{0.125, 1, inf}",
+                "{-3}" if core.TIER == "quick" else "{1,-3}", 2 if core.TIER == "quick" else 3,
+                "{-1, 0.05, inf, nan}" if core.TIER == "quick" else "{0, -1, 0.05, inf, nan}", VALUES),
         exhaustive=True)
 
 
